@@ -55,21 +55,34 @@ def run(c):
                      "TLC, CommunityModules Json, g++/libgomp, Eigen (least-squares oracle) are trusted"]
     notes = {}
 
-    def models():
-        ms = []
-        # coverage=False: TLC's coverage bookkeeping slows the deeply recursive rational evaluation 20x
-        ms.append(c.tlc_model("DirectModel", constants={"N": 3}, workers=4, coverage=False))
-        if th:
-            ms.append(c.tlc_model("DirectModel", constants={"N": 4}, workers=12, coverage=False, timeout=1500))
-        ms.append(c.tlc_model("PermModel", constants={"NP": 5, "DiagOnly": "TRUE"} if th else {"NP": 4, "DiagOnly": "FALSE"}, workers=8, coverage=False, timeout=1500))
-        ms.append(c.tlc_model("InverseModel", constants={"NI": 2, "NegLo": 2, "Hi": 2}, workers=4, coverage=False))
-        ms.append(c.tlc_model("InverseModel", constants={"NI": 3, "NegLo": 1, "Hi": 2 if th else 1}, workers=8, coverage=False, timeout=1500))
-        ms.append(c.tlc_model("StaticMatrixModel", constants={"Wide": "TRUE" if th else "FALSE"}, workers=8, coverage=False, timeout=1500))
-        ms.append(c.tlc_model("QrModel", workers=2))
+    def report(ms):
         for m in ms:
             if m["violated"]:
                 notes[m["module"]] = m["violated"]
                 c.note("model %s violated %s" % (m["module"], m["violated"]))
+
+    # coverage=False: TLC's coverage bookkeeping slows the deeply recursive rational evaluation 20x
+    def models_a():
+        ms = [c.tlc_model("DirectModel", constants={"N": 3}, workers=4, coverage=False)]
+        if th:
+            ms.append(c.tlc_model("DirectModel", constants={"N": 4}, workers=6, coverage=False, timeout=1700))
+        ms.append(c.tlc_model("PermModel", constants={"NP": 5, "DiagOnly": "TRUE"} if th else {"NP": 4, "DiagOnly": "FALSE"},
+                              workers=6 if th else 8, coverage=False, timeout=1700))
+        report(ms)
+
+    def models_b():
+        ms = [c.tlc_model("InverseModel", constants={"NI": 2, "NegLo": 2, "Hi": 2}, workers=4, coverage=False),
+              c.tlc_model("InverseModel", constants={"NI": 3, "NegLo": 1, "Hi": 2 if th else 1}, workers=6 if th else 8, coverage=False, timeout=1700),
+              c.tlc_model("StaticMatrixModel", constants={"Wide": "TRUE" if th else "FALSE"}, workers=6 if th else 8, coverage=False, timeout=1700),
+              c.tlc_model("QrModel", workers=2)]
+        report(ms)
+
+    def models():
+        if th:
+            c.parallel([models_a, models_b])
+        else:
+            models_a()
+            models_b()
 
     def code():
         rd = c.build("record_direct", ["record_direct.cpp"], flags=["-fno-access-control"])
